@@ -137,26 +137,26 @@ CHECKS = {
 }
 # strata added to the ties after the hunting rounds (appended to level_claimed.text; DESIGN.md 0.2 / 0.8 have the full list)
 EXTRA = {
- 'C05': ' Round-6: element writes through a view (row = x[1]; row[i] = v) must round by the mode of the object that holds the values. Rounds 7-8: stratum D (decimal.Decimal inputs with more digits than a double holds, either sign of n_frac); carrier arr_obj_f32.',
- 'C01': ' Later strata: wrap of floats beyond 2^62 scaled, complex64 carriers, tiny complex components, Decimal scalars and lists, object ndarrays mixing ints and floats, a real value written by index into a complex array. Round-3 strata: np.longdouble carriers with 64-bit significands (scalar, 0-d, 1-element array, list); a complex value written by index into a real array; decimal strings in exponent notation. Round-5: boolean carriers (True, np.bool_, lists and arrays) are the numbers 1 and 0. Round-6: np.clongdouble carriers; element writes through a view (row = x[1]; row[i] = v). Rounds 7-8: longdouble next to a huge neighbour; carriers arr_obj2d, arr_obj_f32, arr2d_T; acknowledging callbacks.',
- 'C02': ' Later: theorem C02_saturate_side_float_any_width (words to 960 bits); program operations like= + scale / bias and set_best_sizes(); scaled objects with integer scale / bias at the int64 / uint64 edge; float scalars, lists and arrays saturating in words of 53..70 bits (value upper + 1 LSB, saturating element after an in-range one), Spec only. Round-5: program operations conj (a real object is its own conjugate, also beyond 53 bits) and resize_rejected (a rejected resize leaves the object as it was). Round-6: both parts of complex codes are checked for range; conj of complex objects whose imaginary code is the lowest one.',
+ 'C05': ' Round-6: element writes through a view (row = x[1]; row[i] = v) must round by the mode of the object that holds the values. Rounds 7-8: stratum D (decimal.Decimal inputs with more digits than a double holds, either sign of n_frac); carrier arr_obj_f32. Round-9: stratum F, values handed over by another fixed-point object (16..70 bits, integer-valued or not) into core formats with negative n_frac too.',
+ 'C01': ' Later strata: wrap of floats beyond 2^62 scaled, complex64 carriers, tiny complex components, Decimal scalars and lists, object ndarrays mixing ints and floats, a real value written by index into a complex array. Round-3 strata: np.longdouble carriers with 64-bit significands (scalar, 0-d, 1-element array, list); a complex value written by index into a real array; decimal strings in exponent notation. Round-5: boolean carriers (True, np.bool_, lists and arrays) are the numbers 1 and 0. Round-6: np.clongdouble carriers; element writes through a view (row = x[1]; row[i] = v). Rounds 7-8: longdouble next to a huge neighbour; carriers arr_obj2d, arr_obj_f32, arr2d_T; acknowledging callbacks. Round-9: exponent strings with an upper-case E.',
+ 'C02': ' Later: theorem C02_saturate_side_float_any_width (words to 960 bits); program operations like= + scale / bias and set_best_sizes(); scaled objects with integer scale / bias at the int64 / uint64 edge; float scalars, lists and arrays saturating in words of 53..70 bits (value upper + 1 LSB, saturating element after an in-range one), Spec only. Round-5: program operations conj (a real object is its own conjugate, also beyond 53 bits) and resize_rejected (a rejected resize leaves the object as it was). Round-6: both parts of complex codes are checked for range; conj of complex objects whose imaginary code is the lowest one. Round-9: max / min into out=.',
  'C03': ' Later strata: dot / prod / cumsum and sums of 62..63-bit words into registers and into their optimal word beyond 64 bits (exact oracle and Reduce model); + - * / sum / max of scalar, indexed and array operands through out= / op_out into narrow and 64..128-bit wrap registers with flags (Spec and arithmetic model), sums of more than 53 bits into registers with fewer fraction bits (Spec), 64..128-bit sources copied into core words (Spec and conversion model). Round-5: theorem C03_wide_sum_into_register (operands of any width, sums of more than 53 bits into fewer fraction bits: the exact sum quantized once); nested Python lists / tuples with elements in [2^63, 2^64) in stratum W. Round-6: an acknowledging callback (reset() inside the overflow / underflow event) on a share of the wrap stores; out= registers whose fraction length puts the aligned operands at the int64 edge. Rounds 7-8: stratum N (np.square / np.left_shift on wide integer operands through out= into wrap registers wider than 64 bits); negative differences of unsigned operands into wide registers on purpose.',
- 'C04': ' Later strata: 54..63-bit integers into formats with negative n_frac (flags, callbacks, model); the inaccuracy flag through -x +x abs np.negative np.abs << >>; complex writes. Round-6: inaccuracy propagation into results stored through out= (function and NumPy spelling). Rounds 7-8: registration by x.callbacks.append and a bystander object; stratum K: resize(restore_val=False) stores the kept codes with the flags and callbacks of that write.',
- 'C07': ' Later strata: the value method (op_method=repr) on operands built from integer values, forced integer formats. Round-3 strata: product trees of integer-valued leaves with n_frac = -1 by the value method; operations while a class-wide template is installed. Round-5: operands carrying array_op_method=raw in their configuration (the value method computes on values all the same). Rounds 7-8: operands obtained by iterating over an array; array_output_type=array on the NumPy route (the plain array holds the exact values).',
- 'C08': ' Later strata: the constant under op_input_size=same is the number quantized under the operand\'s modes; NumPy numbers on the left. Round-5: theorems C08_imposed_raw_wide_sum / C08_imposed_raw_wide_product (operands of any width, exact results of more than 53 bits into imposed formats with fewer fraction bits); out_like templates with an earlier life (the flags of the result are about the result). Round-6: operands obtained by indexing an array (built from codes or from integer values). Round-7: unary results that are not representable (the negated / absolute lowest code) hold the bound or the residue their own overflow mode demands.',
- 'C09': ' Later strata: x / y into an imposed format (sizing policies, out=, plain divisor; model opcode 45), operand formats whose integer bits do not overlap, mixed-sign operands of 54..63 aligned bits. Round-3: the value method also with operand words beyond 53 bits (// and % only; Div.div_repr follows the switch to the integer-code method). Round-5: the operands presented as two scalars, an array against a scalar or an indexed element (either side), two arrays. Round-6: strongly negative fraction lengths (values reaching 2^63) with operands built from integer values, by either method.',
- 'C10': ' Later strata: complex sources through every route into objects created with and without a value. Round-3: source objects whose value type came from a list of NumPy uint64 scalars; indexed assignment into a destination that reached its format by an in-place resize. Round-5: destinations given through n_int and one other size together with a change of signedness (resize and like=). Round-7: conversions into the same format; an element written into a second result of the conversion never shows in the source.',
- 'C11': ' Later strata: every prefix the configuration accepts (and none) rendered and parsed back; NumPy string arrays; 2-D renderings. Round-3: binary strings rendered with the point fed back with raw=True (set_val, constructor, from_bin). Round-6: the rendering with the binary point fed back with every accepted prefix, upper case included. Rounds 7-8: an explicit prefix argument (the empty one included) wins over the configured prefix; configurations built from a template configuration with explicit prefixes.',
+ 'C04': ' Later strata: 54..63-bit integers into formats with negative n_frac (flags, callbacks, model); the inaccuracy flag through -x +x abs np.negative np.abs << >>; complex writes. Round-6: inaccuracy propagation into results stored through out= (function and NumPy spelling). Rounds 7-8: registration by x.callbacks.append and a bystander object; stratum K: resize(restore_val=False) stores the kept codes with the flags and callbacks of that write. Round-9: formats reached from another word size through resize(n_frac=, n_int=) or like= with both sizes before the history runs.',
+ 'C07': ' Later strata: the value method (op_method=repr) on operands built from integer values, forced integer formats. Round-3 strata: product trees of integer-valued leaves with n_frac = -1 by the value method; operations while a class-wide template is installed. Round-5: operands carrying array_op_method=raw in their configuration (the value method computes on values all the same). Rounds 7-8: operands obtained by iterating over an array; array_output_type=array on the NumPy route (the plain array holds the exact values). Round-9: indexed elements of integer-valued arrays under the value method for every signedness pair; array operands rewritten through a view between two uses.',
+ 'C08': ' Later strata: the constant under op_input_size=same is the number quantized under the operand\'s modes; NumPy numbers on the left. Round-5: theorems C08_imposed_raw_wide_sum / C08_imposed_raw_wide_product (operands of any width, exact results of more than 53 bits into imposed formats with fewer fraction bits); out_like templates with an earlier life (the flags of the result are about the result). Round-6: operands obtained by indexing an array (built from codes or from integer values). Round-7: unary results that are not representable (the negated / absolute lowest code) hold the bound or the residue their own overflow mode demands. Round-9: the same object combined with the same constant before and after its modes were changed.',
+ 'C09': ' Later strata: x / y into an imposed format (sizing policies, out=, plain divisor; model opcode 45), operand formats whose integer bits do not overlap, mixed-sign operands of 54..63 aligned bits. Round-3: the value method also with operand words beyond 53 bits (// and % only; Div.div_repr follows the switch to the integer-code method). Round-5: the operands presented as two scalars, an array against a scalar or an indexed element (either side), two arrays. Round-6: strongly negative fraction lengths (values reaching 2^63) with operands built from integer values, by either method. Round-9: stratum T, a class-wide template of either signedness installed during / // %.',
+ 'C10': ' Later strata: complex sources through every route into objects created with and without a value. Round-3: source objects whose value type came from a list of NumPy uint64 scalars; indexed assignment into a destination that reached its format by an in-place resize. Round-5: destinations given through n_int and one other size together with a change of signedness (resize and like=). Round-7: conversions into the same format; an element written into a second result of the conversion never shows in the source. Round-9: conversions that omit signed=.',
+ 'C11': ' Later strata: every prefix the configuration accepts (and none) rendered and parsed back; NumPy string arrays; 2-D renderings. Round-3: binary strings rendered with the point fed back with raw=True (set_val, constructor, from_bin). Round-6: the rendering with the binary point fed back with every accepted prefix, upper case included. Rounds 7-8: an explicit prefix argument (the empty one included) wins over the configured prefix; configurations built from a template configuration with explicit prefixes. Round-9: render, change codes in place (view, row, element, sort), render again with the same arguments.',
  'C12': ' Later strata: fxp_sum(dtype=) (utils.get_sizes_from_dtype) with x.dtype and every spelling; the notation switched on the object. Round-3: constructing with a real value and a complex dtype string reproduces the complex format. Round-6: a complex element written into an object of real values: the dtype string follows at once.',
- 'C13': ' Later: theorems C13_arrays_and_or_xor / C13_arrays_not / C13_arrays_pairing (arrays of any length, any word) and the array model (opcode 61); arrays of codes on either or both sides, also as transposed 2-D views, scalar & array, De Morgan on arrays, NumPy masks on the left. Round-3: in-place update of one element (x[0] ^= 1) on arrays of every listed word length. Round-5: stratum S, two array operands of different shapes that broadcast against each other (equal sizes included): the table of every pair. Round-6: NumPy masks on the left while the configuration of x says array_output_type=array.',
- 'C14': ' Later strata: NumPy integer shift counts; the value views real / imag and the array-ness of val after a shift. Round-3: C14_lshift_expand holds for every word length and count (exact bit count, Python integers from 64 bits on); C14_lshift_zero_keeps_format. Round-5: theorems C14_lshift_expand_arrays / C14_lshift_expand_arrays_word_least and the array model of << (opcode 92); stratum C: words 33..96 with counts to 70 in all three modes. Round-6: elements x[i] of arrays as shift operands (all strata). Rounds 7-8: a second shift of the same object after its codes changed through a view; transposed 2 x 2 operands.',
- 'C15': ' Later: C15_sum_exact / cumsum / prod / dot / trace hold for EVERY word length (Python-integer accumulation from 64 result bits on, fix aaa3394, modelled); theorem C15_cumprod_exact (+ C15_cumprod_entry_value) and the cumprod model; clip with float / one-sided / narrow NumPy / fixed-point / keyword bounds; tuples of axes; trace offsets on non-square matrices. Round-3: the accumulating reductions by the value method on integer-valued elements with a negative fraction length; clip with fixed-point bounds on the value path. Round-5: negative axes; clip with crossed bounds (a_min > a_max: the upper bound wins, as in NumPy, on both methods). Round-7: the in-place sort method, also on views (x[i].sort() shows in x).',
- 'C16': ' Later strata: the left object reached through four histories, array_op_method=raw, numbers on the left (Python and NumPy), the six NumPy comparison functions called by name. Round-3: the comparison functions by name under both settings of array_op_method. Round-5: an object that has seen a rejected indexed write (IndexError) reads and compares as before. Rounds 7-8: fraction lengths -30..60 far apart between the operands; item() with flat, n-d, tuple and negative indices.',
- 'C17': ' Later strata: narrow NumPy carriers, fixed-point values as carriers, like= with scale= / bias=, raw writes on scaled objects, and a scaled object as first / second operand of + - * or as the out= target (it counts by the value it reads back; Spec only). Round-3: routes equal() and like(), NumPy-scalar scale / bias, lists of NumPy uint64 scalars, complex values into scaled objects. Round-5: reading (get_val, str, ==) never changes the stored codes and a second reading returns the same values; all-integer scaled objects; a value-less scaled object and the elements x[i] of a scaled array carry no flags of their own. Round-6: size inference of scaled objects under a coarse max_error (same configuration on both sides); scale / bias as 0-d arrays. Rounds 7-8: templates with a scaling of their own overridden by explicit scale= / bias= (zero and one included); one-operand functions into a scaled out= (also as a 1-tuple).',
- 'C18': ' Later strata: lists of wide integers, the value buffer after an indexed write, 2-D renderings of wide arrays. Round-3: the shift operators on wide words (scalars and arrays, codes at and next to powers of two). Round-5: the indicator under other n_word_max settings; a sequence assigned to one element is rejected, never stored as a nested array; nested Python lists with elements in [2^63, 2^64).',
- 'C06': ' Later: theorem C06_best_sizes_minimal (+ C06_code_is_exact): with both sizes inferred and below the cap, arrays of any length get the least fraction length exact for every element and the least word holding every code. Round-5: theorems C06_given_frac_minimal_word and C06_given_word_best_frac (one size given); words many bits short of the exact fraction with an extreme just beyond a power of two. Round-6: a prelude (the same values constructed earlier in the process under a coarse max_error) before a share of the cases. Round-7: theorem C06_word_within_max; the capped stratum (wide-dynamic-range arrays, where the cap shortens the fraction) is tied to the corrected model (opcode 100) for inputs that are multiples of 2^-52.',
- 'C19': ' Later strata: both operands configured with a larger n_word_max; integers into negative n_frac (Spec and model), operands obtained by indexing, the value method on integer-valued operands whose words add up to 62..66 bits. Round-8: operands obtained by iterating over an array.',
- 'C20': ' Later strata: 19 container kinds compared deeply before and after three store routes; T / flatten / ravel / fxp_like among the 17 routes. Round-3: the value view x.real after a write through a view. Round-5: write-through on slices, through rows taken earlier, for words of 64 bits and more, and of a complex value through a view of real values (not lost silently). Round-6: the four Fxp-valued configuration settings set on the source, used and changed through derived objects. Round-7: stratum F: a derivation that fails (a callback raising while the derived object is built) leaves its operand whole.',
+ 'C13': ' Later: theorems C13_arrays_and_or_xor / C13_arrays_not / C13_arrays_pairing (arrays of any length, any word) and the array model (opcode 61); arrays of codes on either or both sides, also as transposed 2-D views, scalar & array, De Morgan on arrays, NumPy masks on the left. Round-3: in-place update of one element (x[0] ^= 1) on arrays of every listed word length. Round-5: stratum S, two array operands of different shapes that broadcast against each other (equal sizes included): the table of every pair. Round-6: NumPy masks on the left while the configuration of x says array_output_type=array. Round-9: 3-D operands, ~x and mask forms in the broadcast stratum.',
+ 'C14': ' Later strata: NumPy integer shift counts; the value views real / imag and the array-ness of val after a shift. Round-3: C14_lshift_expand holds for every word length and count (exact bit count, Python integers from 64 bits on); C14_lshift_zero_keeps_format. Round-5: theorems C14_lshift_expand_arrays / C14_lshift_expand_arrays_word_least and the array model of << (opcode 92); stratum C: words 33..96 with counts to 70 in all three modes. Round-6: elements x[i] of arrays as shift operands (all strata). Rounds 7-8: a second shift of the same object after its codes changed through a view; transposed 2 x 2 operands. Round-9: operands whose configuration carries an op_out_like template (the shifts size their results by their own rule).',
+ 'C15': ' Later: C15_sum_exact / cumsum / prod / dot / trace hold for EVERY word length (Python-integer accumulation from 64 result bits on, fix aaa3394, modelled); theorem C15_cumprod_exact (+ C15_cumprod_entry_value) and the cumprod model; clip with float / one-sided / narrow NumPy / fixed-point / keyword bounds; tuples of axes; trace offsets on non-square matrices. Round-3: the accumulating reductions by the value method on integer-valued elements with a negative fraction length; clip with fixed-point bounds on the value path. Round-5: negative axes; clip with crossed bounds (a_min > a_max: the upper bound wins, as in NumPy, on both methods). Round-7: the in-place sort method, also on views (x[i].sort() shows in x). Round-9: np.sort(x, axis=None); stratum T, the accumulating functions into a caller-chosen format (out= / out_like=) that holds every result (fix 58a2337: cumprod into fewer fraction bits).',
+ 'C16': ' Later strata: the left object reached through four histories, array_op_method=raw, numbers on the left (Python and NumPy), the six NumPy comparison functions called by name. Round-3: the comparison functions by name under both settings of array_op_method. Round-5: an object that has seen a rejected indexed write (IndexError) reads and compares as before. Rounds 7-8: fraction lengths -30..60 far apart between the operands; item() with flat, n-d, tuple and negative indices. Round-9: resize(n_int=) on raw-built objects.',
+ 'C17': ' Later strata: narrow NumPy carriers, fixed-point values as carriers, like= with scale= / bias=, raw writes on scaled objects, and a scaled object as first / second operand of + - * or as the out= target (it counts by the value it reads back; Spec only). Round-3: routes equal() and like(), NumPy-scalar scale / bias, lists of NumPy uint64 scalars, complex values into scaled objects. Round-5: reading (get_val, str, ==) never changes the stored codes and a second reading returns the same values; all-integer scaled objects; a value-less scaled object and the elements x[i] of a scaled array carry no flags of their own. Round-6: size inference of scaled objects under a coarse max_error (same configuration on both sides); scale / bias as 0-d arrays. Rounds 7-8: templates with a scaling of their own overridden by explicit scale= / bias= (zero and one included); one-operand functions into a scaled out= (also as a 1-tuple). Round-9: np.sum(initial=) into a scaled out.',
+ 'C18': ' Later strata: lists of wide integers, the value buffer after an indexed write, 2-D renderings of wide arrays. Round-3: the shift operators on wide words (scalars and arrays, codes at and next to powers of two). Round-5: the indicator under other n_word_max settings; a sequence assigned to one element is rejected, never stored as a nested array; nested Python lists with elements in [2^63, 2^64). Round-9: hex strings without leading zeros (hex(padding=False)) into signed wide words.',
+ 'C06': ' Later: theorem C06_best_sizes_minimal (+ C06_code_is_exact): with both sizes inferred and below the cap, arrays of any length get the least fraction length exact for every element and the least word holding every code. Round-5: theorems C06_given_frac_minimal_word and C06_given_word_best_frac (one size given); words many bits short of the exact fraction with an extreme just beyond a power of two. Round-6: a prelude (the same values constructed earlier in the process under a coarse max_error) before a share of the cases. Round-7: theorem C06_word_within_max; the capped stratum (wide-dynamic-range arrays, where the cap shortens the fraction) is tied to the corrected model (opcode 100) for inputs that are multiples of 2^-52. Round-9: stratum H (sequences of size inferences as the first ones of a fresh process, against a warmed-up process and the exact minimal format); only a negative n_frac given (fix 616bb5f; the error branch of the model for it removed).',
+ 'C19': ' Later strata: both operands configured with a larger n_word_max; integers into negative n_frac (Spec and model), operands obtained by indexing, the value method on integer-valued operands whose words add up to 62..66 bits. Round-8: operands obtained by iterating over an array. Round-9: array operands used once, rewritten through a view, used again.',
+ 'C20': ' Later strata: 19 container kinds compared deeply before and after three store routes; T / flatten / ravel / fxp_like among the 17 routes. Round-3: the value view x.real after a write through a view. Round-5: write-through on slices, through rows taken earlier, for words of 64 bits and more, and of a complex value through a view of real values (not lost silently). Round-6: the four Fxp-valued configuration settings set on the source, used and changed through derived objects. Round-7: stratum F: a derivation that fails (a callback raising while the derived object is built) leaves its operand whole. Round-9: observation U, 46 method / operator / function routes with op_out_like configured (the result is never the reference; writing to it never reaches it).',
 }
 NA_REASON = 'not claimed'
 def main():
